@@ -132,6 +132,11 @@ def expr_of_place(fn, p, depth=0, seen=None, at=None):
                 if cur.k == "agg" and cur.a == "tuple" and cur.c and nm.isdigit() and int(nm) < len(cur.c):
                     cur = cur.c[int(nm)]
                     continue
+                # field i of a struct literal built in this body (`Framed { mac, body }.mac`): the i-th operand
+                if variant is None and cur.k == "agg" and cur.a not in ("tuple", "closure", "array") and cur.c is not None \
+                        and "f" in pe and pe["f"] < len(cur.c) and len(ADTS.get(cur.a, {}).get("variants", [0])) == 1:
+                    cur = cur.c[pe["f"]]
+                    continue
                 # captured variable i of a closure literal of this body (the receiver of a folded-in closure)
                 if cur.k == "agg" and cur.a == "closure" and cur.c is not None and "f" in pe and pe["f"] < len(cur.c):
                     cur = cur.c[pe["f"]]
